@@ -81,6 +81,16 @@ def accesses(fn, env, first_set_name=None):
             cur = p
         return gs
 
+    def in_tf_loop(node):
+        cur = node
+        while cur in parents:
+            cur = parents[cur]
+            if isinstance(cur, ast.For) and isinstance(cur.target, ast.Name) and cur.target.id == 'timeframe':
+                if ast.unparse(cur.iter) != "config['app']['considering_timeframes']":
+                    raise Untranslatable(f'line {cur.lineno}: timeframe loop over {ast.unparse(cur.iter)}')
+                return True
+        return False
+
     aliases = set()
     handled = set()
     for n in ast.walk(fn):
@@ -96,7 +106,7 @@ def accesses(fn, env, first_set_name=None):
                 else:
                     lo = zexpr(sl, env); hi = f'({lo} + 1)'
                 g = guards_of(p)
-                out.append((p.lineno, ' && '.join(g) if g else 'true', lo, hi))
+                out.append((p.lineno, ' && '.join(g) if g else 'true', lo, hi, 'per_tf' if in_tf_loop(p) else 'once'))
             else:
                 raise Untranslatable(f'line {n.lineno}: the whole input array is used, not a row or a slice of it')
     # candles[key]['candles'] assigned to a name (the first symbol's array, used for timestamps)
@@ -115,7 +125,11 @@ def accesses(fn, env, first_set_name=None):
             if isinstance(p, ast.Subscript) and p.value is n and not isinstance(p.slice, ast.Slice):
                 lo = zexpr(p.slice, env)
                 g = guards_of(p)
-                out.append((p.lineno, ' && '.join(g) if g else 'true', lo, f'({lo} + 1)'))
+                if in_tf_loop(p):
+                    raise Untranslatable(f'line {p.lineno}: timestamp read inside the timeframe loop')
+                out.append((p.lineno, ' && '.join(g) if g else 'true', lo, f'({lo} + 1)', 'first'))
+            elif isinstance(p, ast.Call) and isinstance(p.func, ast.Name) and p.func.id == 'len' and p.args == [n]:
+                pass                                    # the length of the session, no row is read
             else:
                 raise Untranslatable(f'line {n.lineno}: use of {n.id} that is not a single row')
     for n in ast.walk(fn):
@@ -134,7 +148,52 @@ def accesses(fn, env, first_set_name=None):
     return sorted(out)
 
 
+def check_warmup(repo):
+    """the store is pre-loaded from the warm-up input only: the session's trading candles reach nothing but the simulator call"""
+    import os
+    path = os.path.join(repo, 'jesse/research/backtest.py')
+    tree = ast.parse(open(path).read())
+    fns = {n.name: n for n in ast.walk(tree) if isinstance(n, ast.FunctionDef)}
+    if '_isolated_backtest' not in fns:
+        raise Untranslatable(f'{path}: _isolated_backtest not found')
+    fn = fns['_isolated_backtest']
+    parents = {}
+    for n in ast.walk(fn):
+        for c in ast.iter_child_nodes(n):
+            parents[c] = n
+    copies = [n for n in ast.walk(fn) if isinstance(n, ast.Assign) and ast.unparse(n) == 'trading_candles_dict = copy.deepcopy(candles)']
+    if len(copies) != 1:
+        raise Untranslatable('_isolated_backtest: trading_candles_dict = copy.deepcopy(candles) not found')
+    for n in ast.walk(fn):
+        if isinstance(n, ast.Name) and n.id == 'trading_candles_dict' and isinstance(n.ctx, ast.Load):
+            p = parents[n]
+            if not (isinstance(p, ast.Call) and isinstance(p.func, ast.Name) and p.func.id == 'simulator' and p.args and p.args[0] is n):
+                raise Untranslatable(f'{path}: line {n.lineno}: the trading candles are used outside the simulator call')
+        if isinstance(n, ast.Name) and n.id == 'candles' and isinstance(n.ctx, ast.Load):
+            p = parents[n]
+            ok = (isinstance(p, ast.Call) and ast.unparse(p) == 'copy.deepcopy(candles)') or \
+                 (isinstance(p, ast.Call) and ast.unparse(p.func) == 'candles.items')
+            if not ok and not (isinstance(p, ast.Attribute) and p.attr == 'items'):
+                raise Untranslatable(f'{path}: line {n.lineno}: unrecognised use of the input candles in _isolated_backtest')
+    inj = [n for n in ast.walk(fn) if isinstance(n, ast.Call) and isinstance(n.func, ast.Name) and n.func.id == 'inject_warmup_candles_to_store']
+    if len(inj) != 1 or ast.unparse(inj[0].args[0]) != "warmup_candles_dict[key]['candles']":
+        raise Untranslatable(f'{path}: inject_warmup_candles_to_store is not fed from warmup_candles_dict[key][\'candles\']')
+    path2 = os.path.join(repo, 'jesse/modes/backtest_mode.py')
+    tree2 = ast.parse(open(path2).read())
+    fns2 = {n.name: n for n in tree2.body if isinstance(n, ast.FunctionDef)}
+    if '_handle_warmup_candles' not in fns2:
+        raise Untranslatable(f'{path2}: _handle_warmup_candles not found')
+    inj2 = [n for n in ast.walk(fns2['_handle_warmup_candles']) if isinstance(n, ast.Call) and isinstance(n.func, ast.Name) and n.func.id == 'inject_warmup_candles_to_store']
+    if len(inj2) != 1 or ast.unparse(inj2[0].args[0]) != "warmup_candles[jh.key(exchange, symbol)]['candles']":
+        raise Untranslatable(f'{path2}: _handle_warmup_candles does not inject warmup_candles[...]')
+    others = [n for n in ast.walk(tree2) if isinstance(n, ast.Call) and isinstance(n.func, ast.Name) and n.func.id == 'inject_warmup_candles_to_store']
+    if len(others) != 1:
+        raise Untranslatable(f'{path2}: inject_warmup_candles_to_store is called from {len(others)} places')
+
+
 def generate(path):
+    import os
+    check_warmup(os.path.dirname(os.path.dirname(os.path.dirname(os.path.abspath(path)))))
     tree = ast.parse(open(path).read())
     fns = {n.name: n for n in tree.body if isinstance(n, ast.FunctionDef)}
     for need in ('_step_simulator', '_skip_simulator', '_simulate_new_candles'):
@@ -175,12 +234,43 @@ def generate(path):
     if ka:
         raise Untranslatable(f'_skip_simulator reads the input rows directly at lines {[a[0] for a in ka]}')
 
-    def lst(acc):
-        return '[' + ';\n   '.join(f'({g}, {lo}, {hi})  (* line {ln} *)' if False else f'({g}, {lo}, {hi})' for ln, g, lo, hi in acc) + ']'
+    # the helpers that receive the whole input before the loop
+    for need in ('_simulation_minutes_length', '_prepare_times_before_simulation'):
+        if need not in fns:
+            raise Untranslatable(f'{path}: function {need} not found')
+    la = accesses(fns['_simulation_minutes_length'], {})
+    if la:
+        raise Untranslatable('_simulation_minutes_length reads rows of the input')
+    ln_fn = fns['_simulation_minutes_length']
+    if ast.unparse(ln_fn.body[-1]) != 'return len(first_candles_set)':
+        raise Untranslatable('_simulation_minutes_length does not return len(first_candles_set)')
+    pa = accesses(fns['_prepare_times_before_simulation'], {})
+    if any(a[4] != 'first' for a in pa):
+        raise Untranslatable('_prepare_times_before_simulation reads more than timestamps of the first symbol')
+    for fn_, nm in ((step_fn, '_step_simulator'), (skip_fn, '_skip_simulator')):
+        cl = [n for n in ast.walk(fn_) if isinstance(n, ast.Call) and isinstance(n.func, ast.Name) and n.func.id == '_prepare_times_before_simulation']
+        if len(cl) != 1:
+            raise Untranslatable(f'{nm}: _prepare_times_before_simulation is not called exactly once')
+    for (ln, g, lo, hi, cls) in sa + fa:
+        uses_count = 'count' in g or 'count' in lo or 'count' in hi
+        if uses_count != (cls == 'per_tf'):
+            raise Untranslatable(f'line {ln}: an access {"outside" if uses_count else "inside"} the timeframe loop {"uses" if uses_count else "does not use"} count')
+    if any(a[4] == 'first' for a in fa):
+        raise Untranslatable('_simulate_new_candles reads timestamps of the first symbol')
+
+    def lst(acc, cls):
+        return '[' + ';\n   '.join(f'({g}, {lo}, {hi})' for ln, g, lo, hi, c in acc if c == cls) + ']'
     text = ('(* GENERATED by translator/simidx.py from jesse/modes/backtest_mode.py - do not edit; regenerated on every run.\n'
             '   Every read of the input candle arrays made while simulating step i: (guard, lo, hi) = rows lo..hi-1.\n'
+            '   *_first: the first symbol\'s array only (timestamps); *_once: every symbol; *_per_tf: every symbol, once per considered timeframe.\n'
             f'   step simulator source lines: {[a[0] for a in sa]}; fast simulator source lines: {[a[0] for a in fa]} *)\n'
             'From Coq Require Import ZArith List Bool.\nImport ListNotations.\nLocal Open Scope Z_scope.\nLocal Open Scope bool_scope.\n\n'
-            f'Definition step_accesses (i count : Z) : list (bool * Z * Z) :=\n  {lst(sa)}.\n\n'
-            f'Definition fast_accesses (i step count : Z) : list (bool * Z * Z) :=\n  {lst(fa)}.\n')
+            f'Definition prep_first : list (bool * Z * Z) :=\n  {lst(pa, "first")}.\n'
+            f'Definition step_first (i : Z) : list (bool * Z * Z) :=\n  {lst(sa, "first")}.\n'
+            f'Definition step_once (i : Z) : list (bool * Z * Z) :=\n  {lst(sa, "once")}.\n'
+            f'Definition step_per_tf (i count : Z) : list (bool * Z * Z) :=\n  {lst(sa, "per_tf")}.\n'
+            'Definition step_accesses (i count : Z) : list (bool * Z * Z) := step_first i ++ step_once i ++ step_per_tf i count.\n\n'
+            f'Definition fast_once (i step : Z) : list (bool * Z * Z) :=\n  {lst(fa, "once")}.\n'
+            f'Definition fast_per_tf (i step count : Z) : list (bool * Z * Z) :=\n  {lst(fa, "per_tf")}.\n'
+            'Definition fast_accesses (i step count : Z) : list (bool * Z * Z) := fast_once i step ++ fast_per_tf i step count.\n')
     return text
